@@ -1,4 +1,5 @@
 import PGM.Proofs.ZerosSem
+import Mathlib.Algebra.Order.Field.Rat
 /-!
 # C10 — structural zeros carry no mass in any answer
 
@@ -53,14 +54,54 @@ theorem combine_reinstalls_zeros (d : Dom) (cliques : List Clique) (b : CliqueVe
     joint (CliqueVec.combine b (zeroVec d zs)) τ = 0 := by
   apply Zeros.combine_reinstalls_zeros <;> assumption
 
-/-- **zero in every answer**: if the joint vanishes at every assignment extending the declared cell
-`(zc, cell)`, then the marginal onto any attribute tuple containing `zc` vanishes at every
+/-- **zero in every answer**: if the joint vanishes at every IN-RANGE assignment (`d.Valid τ`) extending the
+declared cell `(zc, cell)`, then the marginal onto any attribute tuple containing `zc` vanishes at every in-range
 assignment extending that cell — in-clique, out-of-clique, full vector alike (the answers are
-`total · marginal / Z` by C01/C02) -/
+`total · marginal / Z` by C01/C02).
+
+The vanishing is asked (and concluded) on in-range assignments only.  The earlier form `∀ τ, Hits z τ → joint pots τ = 0`
+ranged over out-of-range `τ` too, where every table lookup (`getD`) reads the default `⟨1⟩`: that hypothesis is FALSE
+for every model with an attribute outside the zero clique (`hzero_unrestricted_false` below), i.e. the old theorem was
+vacuous on real models.  `zeros_installed` / `update_preserves_zeros` / `combine_reinstalls_zeros` deliver exactly the
+valid form. -/
 theorem zero_in_all_answers (d : Dom) (pots : CliqueVec (LogOf K)) (z : ZeroSpec) (as : List Attr)
-    (σ : Attr → Nat) (hd : d.WF) (has : as.Nodup) (hsub : ∀ a ∈ as, a ∈ d.attrs) (hzc : ∀ a ∈ z.zc, a ∈ as)
-    (hzero : ∀ τ, Hits z τ → joint pots τ = 0) (hσ : Hits z σ) :
+    (σ : Attr → Nat) (hd : d.WF) (hzc : ∀ a ∈ z.zc, a ∈ as)
+    (hzero : ∀ τ, d.Valid τ → Hits z τ → joint pots τ = 0) (hσv : d.Valid σ) (hσ : Hits z σ) :
     marginal d pots as σ = 0 := by
   apply Zeros.zero_in_all_answers <;> assumption
+
+/-! ### Non-vacuity: a 2-attribute model with a zero on one attribute -/
+section Example
+/-- domain `a:2, b:2` -/
+def exD : Dom := [("a", 2), ("b", 2)]
+/-- structural zero `a = 0` (attribute `b` is outside the zero clique) -/
+def exZ : ZeroSpec := ⟨["a"], [[0]]⟩
+/-- the potentials after `_setup`: zeros on the clique `[a,b]` combined with the structural zero -/
+def exPots : CliqueVec (LogOf ℚ) := CliqueVec.combine (CliqueVec.zerosV exD [["a", "b"]]) (zeroVec exD [exZ])
+
+theorem ex_hzero : ∀ τ, exD.Valid τ → Hits exZ τ → joint exPots τ = 0 := by
+  intro τ hτ hit
+  have h := zeros_installed (K := ℚ) exD [["a", "b"]] [exZ] τ (by decide) (by decide) (by decide) (by decide) hτ
+  rw [show joint exPots τ = _ from h, if_pos ⟨exZ, by simp, hit⟩]
+
+/-- `zero_in_all_answers` is NOT vacuous: on the model `exD`, `exPots` its hypotheses hold, for the marginal onto `[a]`
+(zero clique itself), onto `[a,b]` (the model clique) and for both in-range cells `a=0,b=0` / `a=0,b=1` -/
+example : marginal exD exPots ["a"] (fun _ => 0) = 0 :=
+  zero_in_all_answers exD exPots exZ ["a"] (fun _ => 0) (by decide) (by decide) ex_hzero
+    (by unfold Dom.Valid; decide) (by unfold Hits; decide)
+example : marginal exD exPots ["a", "b"] (fun x => if x = "b" then 1 else 0) = 0 :=
+  zero_in_all_answers exD exPots exZ ["a", "b"] _ (by decide) (by decide) ex_hzero
+    (by unfold Dom.Valid; decide) (by unfold Hits; decide)
+/-- ... and the conclusion is not trivially true of every cell: the marginal at `a = 1` is `2` -/
+example : marginal exD exPots ["a"] (fun _ => 1) = 2 := by decide +kernel
+
+/-- the UNRESTRICTED hypothesis of the earlier statement fails on this model: `τ = (a ↦ 0, b ↦ 5)` hits the cell, is out of
+range, and the joint reads the default `1` there -/
+theorem hzero_unrestricted_false : ¬ ∀ τ, Hits exZ τ → joint exPots τ = 0 := by
+  intro h
+  have := h (fun x => if x = "b" then 5 else 0) (by unfold Hits; decide)
+  revert this
+  decide +kernel
+end Example
 
 end PGM.C10
